@@ -52,7 +52,7 @@ CHECKS = {
             'DESIGN.md §4 C03'),
     'C04': ('fault_enumeration',
             'complete enumeration of a fault matrix (name-source pairs, reserved names, next/context misuse) on fixed base shapes + Hypothesis-varied bases',
-            'Each cell of the fault matrix (362 cells x provider with/without function) is injected into 3 fixed valid '
+            'Each cell of the fault matrix (about 400 cells x provider with/without function; reserved names also as keyword-only parameters; render_error functions requiring context) is injected into 3 fixed valid '
             'configurations (complete) and into generated valid configurations (sampled); construction must fail (NameError '
             'for conflicts / reserved names) while the un-faulted control constructs and serves.',
             'the matrix is complete only for the listed source kinds and placements; same-kind resource overlaps are not asserted',
@@ -88,7 +88,7 @@ CHECKS = {
             'create_app must construct and answer any path/method with 200; an HTML tokenizer must find no tag, attribute or '
             'comment introduced by the input; for str input the unescaped character data must contain the text and every file '
             'name; for standard tracebacks ending in "Type: message" one element must be exactly the type and one exactly the message.',
-            'tracebacks are produced by the running interpreter (3.12 caret lines included); paths under the page\'s own asset prefix are not requested',
+            'tracebacks are produced by the running interpreter (3.12 caret lines included); under the page\'s own asset prefix only paths that do not name an asset are requested',
             'DESIGN.md §4 C20'),
     'C17': ('exploration',
             'Hypothesis recursive value generator (spec trees) x renderers x requests; json.loads round trip against a harness-side normalisation, restated sniffing rules, html.parser for tables',
